@@ -30,6 +30,7 @@ def gen(rng, tier, index):
     cfg = netgen.base_cfg(rng, FLAVOURS)
     if rng.random() < 0.6:
         cfg["version"] = rng.choice(["2.0", "2.1", "2.2"])
+        netgen.respell(rng, cfg)
     if rng.random() < 0.15:
         cfg["cb_raise"] = sorted(rng.sample(range(40), 6))
     if cfg["flavour"] in ("mqtt", "amqtt"):
